@@ -27,7 +27,7 @@ def check_commit_routine(prog: Program, rep: Report) -> None:
         raise AnalysisError("LeavesEventHandler: register / commit routines not identified by role")
     file = base.file
     # ---- register: change weighted by the leaf's weight, each ancestor level multiplies by that ancestor's weight once
-    reg = base.methods[sorted(roles.register)[0]]
+    reg = roles.canonical[sorted(roles.register)[0]]
     ps = param_names(reg)
     leaf, change = ps[0], ps[1]
     loc = Loc(file, reg.lineno, f"{base.name}.{reg.name}")
@@ -63,7 +63,7 @@ def check_commit_routine(prog: Program, rep: Report) -> None:
             rep.ob("R12.2-keyed-by-ancestor", key_ok, Loc(file, adds[0].lineno, loc.qual), adds[0],
                    "the accumulated change must be keyed by the ancestor's identifier")
     # ---- commit subtree -------------------------------------------------------------------------------------------
-    cs = base.methods[sorted(roles.commit_subtree)[0]]
+    cs = roles.canonical[sorted(roles.commit_subtree)[0]]
     loc = Loc(file, cs.lineno, f"{base.name}.{cs.name}")
     parents = parent_map(cs)
     for stmt, field, recv, elementwise, value in stores(cs):
@@ -101,7 +101,7 @@ def check_commit_routine(prog: Program, rep: Report) -> None:
            f"{cs.name}: recursion over children",
            "the commit must descend into all children unconditionally")
     # commit: iterates the whole state, then clears the dictionary
-    cm = base.methods[sorted(roles.commit)[0]]
+    cm = roles.canonical[sorted(roles.commit)[0]]
     body = body_without_docstring(cm)
     loc = Loc(file, cm.lineno, f"{base.name}.{cm.name}")
     ok = len(body) == 2 and isinstance(body[0], ast.For) and self_attr(body[0].iter) == roles.state_attr \
@@ -159,21 +159,25 @@ def check_creators(prog: Program, rep: Report) -> None:
             passed = any(isinstance(n, ast.Call) and isinstance(n.func, ast.Attribute) and isinstance(n.func.value, ast.Name)
                          and n.func.value.id == "self" and any(isinstance(a, ast.Name) and a.id == pos.id for a in list(n.args) + [k.value for k in n.keywords])
                          for n in ast.walk(fn))
-            ok = drawn and passed
-            why += f" (drawn from random_position: {drawn}; handed to the member-creation helper as centre: {passed})"
+            # ... or the members are built right here from its components (centre[d] +/- offset)
+            built_here = any(isinstance(n, ast.Subscript) and isinstance(n.value, ast.Name) and n.value.id == pos.id
+                             and isinstance(n.ctx, ast.Load) for n in ast.walk(fn))
+            ok = drawn and (passed or built_here)
+            why += f" (drawn from random_position: {drawn}; handed to the member-creation helper as centre: {passed}; members built from its components: {built_here})"
         rep.ob("R12.5-root-is-centre", ok, Loc(c.file, root_sets[0].lineno, f"{c.name}.fill_root_node"), root_sets[0],
                f"the stored position of a created composite object must be the very centre its point masses were placed around "
                f"(their nearest-image barycentre); computing it from the already wrapped member positions is wrong for a molecule "
                f"that straddles a box face: {why}")
-        # the helper builds the members symmetrically around that centre: every member position is centre[d] +/- offset
+        # the members are built symmetrically around that centre and each is put back into the box exactly once -- in the helper(s)
+        # or in fill_root_node itself
         helpers = [n.func.attr for n in ast.walk(fn) if isinstance(n, ast.Call) and isinstance(n.func, ast.Attribute)
                    and isinstance(n.func.value, ast.Name) and n.func.value.id == "self"]
-        for hname in helpers:
-            h = c.methods.get(hname)
-            if h is None:
-                continue
+        scopes = [(hname, c.methods[hname]) for hname in helpers if hname in c.methods] + [("fill_root_node", fn)]
+        for hname, h in scopes:
             wraps = [n for n in ast.walk(h) if isinstance(n, ast.Call) and norm(n.func).endswith("periodic_boundaries.correct_position")]
-            particles = [n for n in ast.walk(h) if isinstance(n, ast.Call) and norm(n.func) == "Particle"]
+            particles = [n for n in ast.walk(h) if isinstance(n, ast.Call) and norm(n.func) == "Particle" and n is not call]
+            if not particles:
+                continue
             rep.ob("R12.5-members-wrapped", len(wraps) == len(particles) and len(particles) >= 2,
                    Loc(c.file, h.lineno, f"{c.name}.{hname}"), f"{len(particles)} members, {len(wraps)} wrapped",
                    "every created point mass must be put back into the box exactly once")
